@@ -20,6 +20,7 @@ from pycel.lib.function_helpers import (
 
 _SIZE_MASK = {2: 512, 8: 0x20000000, 16: 0x8000000000}
 _BASE_TO_FUNC = {2: bin, 8: oct, 16: hex}
+_DIGITS = '0123456789ABCDEF'
 
 
 def _base2dec(value, base):
@@ -37,7 +38,9 @@ def _base2dec(value, base):
         if int(value) == value:
             value = str(int(value))
 
-    if isinstance(value, str) and len(value) <= 10:
+    if isinstance(value, str) and len(value) <= 10 and all(
+            c in _DIGITS[:base] for c in value.upper()):
+        # only digits, int() would accept whitespace, sign, '_' and 0b/0o/0x
         try:
             value, mask = int(value, base), _SIZE_MASK[base]
             if value >= 0:
